@@ -351,6 +351,9 @@ func C14(r *explore.Run) {
 // produced for the lexeme must equal what R1 produces for prefix+lexeme, and
 // two witness prefixes of the same state must produce identical results.
 func lexStateSearch(r *explore.Run) {
+	if r.Replaying() {
+		return
+	}
 	type stateKey struct {
 		cls string
 		dot bool
